@@ -768,10 +768,11 @@ func (b *broker) trySend(sess *wamp.Session, msg wamp.Message) {
 }
 
 func prepareEvent(pub *wamp.Session, msg *wamp.Publish, pubID wamp.ID, sub *subscription, sendTopic, disclose bool, eventDetails wamp.Dict, subscriber *wamp.Session) *wamp.Event { //nolint:lll
-	details := eventDetails
-	if details == nil {
-		details = wamp.Dict{}
-	}
+	// Each event gets its own details. The details of one event must not
+	// change when the event for the next recipient is prepared, and an event
+	// handed to a remote peer is serialized concurrently.
+	details := make(wamp.Dict, len(eventDetails)+4)
+	maps.Copy(details, eventDetails)
 
 	event := &wamp.Event{
 		Publication:  pubID,
